@@ -75,6 +75,14 @@ int main(int argc, char **argv) {
             if (fn == "mshell") rc = mshell_execute(p, mtab_all, &ret); else if (fn == "mshell_tables") rc = mshell_tables_execute(p, mtabs, &ret);
             else if (fn == "rshell") rc = rshell_execute(p, rtab_all, &ret, 0, 0, 0); else rc = rshell_tables_execute(p, rtabs, &ret, 0, 0);
             e.i("calls", h_calls).bytes("name", h_name.data(), h_name.size()).i("argc", (long)h_argv.size()).raw("argvs", toks_json(h_argv)).i("rc", rc).i("hret", ret); free(p); }
+        else if (fn == "mshell_help" || fn == "mshell_tables_help") {   // the help text handed to the write callback, piece by piece
+            std::string acc; auto w = [](void *p, const char *d, size_t n2) { ((std::string *)p)->append(d, n2); };
+            if (fn == "mshell_help") mshell_help(n == 1 ? mtab1 : n == 2 ? mtab2 : mtab_all, w, &acc); else mshell_tables_help(mtabs, w, &acc);
+            e.bytes("out", acc.data(), acc.size()); }
+        else if (fn == "rshell_help" || fn == "rshell_tables_help") {   // the help text built in a caller-supplied buffer of b[0] bytes (between guard bytes)
+            long amax = b.empty() ? 1 : b[0] + (b.size() > 1 ? 256 * b[1] : 0); unsigned char *o = (unsigned char *)malloc(amax + 2 * G); memset(o, 0xA5, amax + 2 * G);
+            int r = fn == "rshell_help" ? rshell_help(n == 1 ? rtab1 : n == 2 ? rtab2 : rtab_all, (char *)o + G, (int)amax) : rshell_tables_help(rtabs, (char *)o + G, (int)amax);
+            e.i("ret", r).i("amax", amax).bytes("win", o, amax + 2 * G); free(o); }
         else if (fn == "path_next") { char *p = blk(s, true); unsigned len = 0; const char *r = path_next(p, &len); e.i("off", r ? (long)(r - p) : -1).i("len", r ? len : 0); free(p); }
         else if (fn == "path_iterate") { char *p = blk(s, true); const char *r = path_iterate(p); e.i("off", r ? (long)(r - p) : -1); free(p); }
         else if (fn == "compare_node") { char *p = blk(s, true), *q = blk(a, true); e.i("ret", path_compare_node(p, q)); free(p); free(q); }
